@@ -3,6 +3,7 @@ package props
 import (
 	"bytes"
 	"fmt"
+	"net"
 	"testing"
 
 	"github.com/insomniacslk/dhcp/dhcpv4"
@@ -175,6 +176,52 @@ var c08 = newChk("C08", "ownership",
 						return obs.Failf("C08/v6/input-aliased/after-reparse", "encoding unchanged after every source buffer was overwritten", "differs at byte %d", firstDiff(encA, encB))
 					}
 					rec.Class("option objects re-used as decoders")
+				}
+			}
+		}
+		// DHCPv4: the same options decoded through the exported decoders of an options area (a message assembled field
+		// by field whose options come from Options.FromBytes; relay agent information through its typed decoder)
+		if !c.V6 && len(c.B) > 240 {
+			end := 240
+			for end < len(c.B) && c.B[end] != 255 {
+				if c.B[end] == 0 {
+					end++
+					continue
+				}
+				if end+1 >= len(c.B) || end+2+int(c.B[end+1]) > len(c.B) {
+					end = -1
+					break
+				}
+				end += 2 + int(c.B[end+1])
+			}
+			if end > 240 {
+				area := append([]byte{}, c.B[240:end]...)
+				opts := dhcpv4.Options{}
+				if err := opts.FromBytes(area); err == nil {
+					asm := &dhcpv4.DHCPv4{OpCode: dhcpv4.OpcodeBootReply, HWType: 1, ClientHWAddr: net.HardwareAddr{1, 2, 3, 4, 5, 6}, Options: opts}
+					e1, s1 := append([]byte{}, asm.ToBytes()...), asm.Summary()
+					var rai *dhcpv4.RelayOptions
+					var r1 []byte
+					var rbuf []byte
+					if v := opts.Get(dhcpv4.OptionRelayAgentInformation); len(v) > 0 {
+						rbuf = append([]byte{}, v...)
+						ro := &dhcpv4.RelayOptions{}
+						if ro.FromBytes(rbuf) == nil {
+							rai, r1 = ro, append([]byte{}, ro.ToBytes()...)
+						}
+					}
+					scribble(area, c.Pattern, c.Next)
+					scribble(rbuf, c.Pattern, c.Next)
+					if e2 := asm.ToBytes(); !bytes.Equal(e1, e2) {
+						return obs.Failf("C08/v4/input-aliased/options-area/encoding", "a message assembled from Options.FromBytes keeps its encoding after the area was overwritten", "differs at byte %d", firstDiff(e1, e2))
+					}
+					if s2 := asm.Summary(); s2 != s1 {
+						return obs.Failf("C08/v4/input-aliased/options-area/Summary", clipS(s1), "%s", clipS(s2))
+					}
+					if rai != nil && !bytes.Equal(rai.ToBytes(), r1) {
+						return obs.Failf("C08/v4/input-aliased/relay-options", "RelayOptions decoded from a buffer keep their encoding after it was overwritten", "%x vs %x", clipb(r1), clipb(rai.ToBytes()))
+					}
+					rec.Class("v4 options area through the exported decoders")
 				}
 			}
 		}
